@@ -6,6 +6,9 @@
 #include <occa/internal/core/memoryPool.hpp>
 #include <occa/internal/modes.hpp>
 #include <occa/internal/utils/sys.hpp>
+#ifdef LIBOCCA_OCCA_VERIF
+#include <occa/internal/utils/verif.hpp>
+#endif
 #include <occa/internal/utils/env.hpp>
 #include <occa/internal/io.hpp>
 
@@ -468,6 +471,9 @@ namespace occa {
     memory mem(modeDevice->malloc(bytes, src, memProps));
     mem.setDtype(dtype);
 
+#ifdef LIBOCCA_OCCA_VERIF
+    verif::yield(verif::yDeviceMallocCount);
+#endif
     modeDevice->bytesAllocated += bytes;
     modeDevice->maxBytesAllocated = std::max(
       modeDevice->maxBytesAllocated, modeDevice->bytesAllocated
